@@ -73,6 +73,7 @@ def main(argv: list[str] | None = None) -> int:
                 try:
                     from . import selftest
                     selftest.attach(pid, rep, a.root, a.jobs)
+                    _attach_sweeps(pid, rep, a.root)
                 except Exception as e:  # self-test never decides a verdict
                     rep.observe(f'self-test could not run: {e!r}')
             if a.replay:
@@ -88,6 +89,29 @@ def main(argv: list[str] | None = None) -> int:
             st = 2
         status = max(status, st)
     return status
+
+
+def _attach_sweeps(pid: str, rep: Report, root: str) -> None:
+    """Thorough tier: the whole-tree behaviour-preserving transformations
+    of tools/neutral_sweep.py; the property's check must stay silent on each
+    (recorded in the evidence, never a verdict about the property)."""
+    tools = os.path.join(os.path.dirname(os.path.dirname(
+        os.path.abspath(__file__))), 'tools')
+    if tools not in sys.path:
+        sys.path.insert(0, tools)
+    import neutral_sweep  # type: ignore
+    neutral_sweep.ROOT = root
+    out = {}
+    for kind in ('unparse', 'logging', 'rename', 'hoist', 'flip', 'annot',
+                 'swap', 'guard'):
+        ov = neutral_sweep.overlay(kind)
+        _pid, outcome, info = neutral_sweep.run_one((pid, ov))
+        out[kind] = outcome if outcome == 'silent' else f'{outcome}: {info}'
+    rep.extra['neutral_sweeps'] = out
+    noisy = {k: v for k, v in out.items() if v != 'silent'}
+    if noisy:
+        rep.observe('neutral sweeps that raised an alarm (checker weakness, '
+                    f'not a property violation): {noisy}')
 
 
 def replay(rep: Report, path: str) -> int:
